@@ -37,7 +37,7 @@ def key_term(P, subj):
     params = []
     args = []
     if rec['recv']:
-        a = ArgVal('self', 'Svc'); params.append(a); args.append(Ref(Cell(a, 'self')) if rec['recv'].startswith('&') else a)
+        a = ArgVal('self', rec.get('recv_ty', 'Svc')); params.append(a); args.append(Ref(Cell(a, 'self')) if rec['recv'].startswith('&') else a)
     for n, t in rec['args']:
         a = ArgVal(n, t); params.append(a); args.append(a)
     got = wrap.dry_run(I, ctx, subj, args)
@@ -115,6 +115,7 @@ def lang(ty, kind='debug'):
         return cat(*seq)
     if ty == 'Pt': return cat(R('Pt { x: '), UINT, R(', y: '), UINT, R(' }'))
     if ty == 'Svc': return cat(R('Svc { id: '), UINT, R(' }'))
+    if ty == 'Node': return alt(R('Node1'), R('Node11'), R('Node110'))        # Debug of a unit-like enum: the variant name
     raise Unsupported('no rendering language for type ' + ty)
 
 
@@ -213,6 +214,9 @@ def replay(f, w):
         kinds = w.get('kinds', ['debug'] * 9)[-len(rec['args']):]
         a = [parse_render(t, s, k) for t, s, k in zip([x[1] for x in rec['args']], w['collide'][0][-len(rec['args']):], kinds)]
         b = [parse_render(t, s, k) for t, s, k in zip([x[1] for x in rec['args']], w['collide'][1][-len(rec['args']):], kinds)]
+        if rec.get('recv_ty') in ('Node', 'u32'):
+            a = [w['collide'][0][0]] + a; b = [w['collide'][1][0]] + b
+        elif rec['recv']: return False, 'receiver values of this subject cannot be passed natively', []
     except (Unsupported, Exception) as e:
         return False, 'witness cannot be turned into native arguments: ' + str(e), []
     L = ['scenario subj', f"callk 0 {w['subject']} " + ' '.join(a), f"callk 0 {w['subject']} " + ' '.join(b), 'end']
